@@ -57,3 +57,10 @@ Theorem C11_argument_shape : forall inc inc' exc exc', same_set inc inc' -> same
   canon (valid (Some inc) (Some exc)) = canon (valid (Some inc') (Some exc')).
 Proof. exact valid_same_set. Qed.
 Print Assumptions C11_argument_shape.
+
+(* obligation regenerated from the source on every run: the queries keep no state between calls and never write to
+   their arguments (syntactic store-site analysis of TokenCategory / TokenCategoryHierarchyMapper, see DESIGN C14) *)
+From KV Require Import EffectsGen PurityProofs.
+Theorem C11_algebra_is_stateless : forallb ss_fresh category_store_sites = true /\ 3 <= List.length category_store_sites.
+Proof. exact category_algebra_stateless. Qed.
+Print Assumptions C11_algebra_is_stateless.
